@@ -103,4 +103,64 @@ example : containsVal [(2, 4), (8, 12)] 3 = true ∧ containsVal [(2, 4), (8, 12
 example : containsRange [(2, 4), (8, 12)] (8, 12) = true ∧ intersectsRange [(2, 4), (8, 12)] (4, 8) = false := by
   decide
 
+/-- **`first_index` / `last_index`**: on a canonical MOC the first index is the smallest covered index and
+    `last_index − 1` is the largest one (`last_index` is the exclusive end of the last range); both are absent
+    exactly for the empty MOC. -/
+theorem first_last_index (l : List Rng) (hc : Canon l) :
+    (∀ a, firstIndex l = some a → mem a l ∧ ∀ x, mem x l → a ≤ x) ∧
+    (∀ b, lastIndex l = some b → (∃ x, mem x l ∧ x + 1 = b) ∧ ∀ x, mem x l → x < b) ∧
+    (firstIndex l = none ↔ l = []) ∧ (lastIndex l = none ↔ l = []) := by
+  refine ⟨?_, ?_, ?_, ?_⟩
+  · intro a ha
+    cases l with
+    | nil => simp [firstIndex] at ha
+    | cons r t =>
+      simp only [firstIndex, List.head?_cons, Option.map_some, Option.some.injEq] at ha
+      subst ha
+      have h := hc
+      simp only [Canon, CanonFrom] at h
+      refine ⟨Or.inl ⟨Nat.le_refl _, h.2.1⟩, ?_⟩
+      intro x hx
+      simp only [mem] at hx
+      rcases hx with hx | hx
+      · exact hx.1
+      · have := h.2.2.lb hx; omega
+  · intro b hb
+    have key : ∀ (l : List Rng) (lo : Nat), CanonFrom lo l → ∀ b, l.getLast?.map (·.2) = some b →
+        (∃ x, mem x l ∧ x + 1 = b) ∧ ∀ x, mem x l → x < b := by
+      intro l
+      induction l with
+      | nil => intro _ _ b hb; simp at hb
+      | cons r t ih =>
+        intro lo h b hb
+        cases t with
+        | nil =>
+          simp only [List.getLast?_singleton, Option.map_some, Option.some.injEq] at hb
+          subst hb
+          refine ⟨⟨r.2 - 1, Or.inl ⟨by have := h.2.1; omega, by have := h.2.1; omega⟩, by have := h.2.1; omega⟩, ?_⟩
+          intro x hx
+          simp only [mem] at hx
+          rcases hx with hx | hx
+          · exact hx.2
+          · exact hx.elim
+        | cons r2 t2 =>
+          have hb' : (r2 :: t2).getLast?.map (·.2) = some b := by simpa [List.getLast?_cons_cons] using hb
+          obtain ⟨⟨x0, hx0, hx0b⟩, hall⟩ := ih _ h.2.2 b hb'
+          refine ⟨⟨x0, Or.inr hx0, hx0b⟩, ?_⟩
+          intro x hx
+          simp only [mem] at hx
+          rcases hx with hx | hx
+          · have := h.2.2.lb hx0
+            omega
+          · exact hall x (by simpa [mem] using hx)
+    exact key l 0 hc b hb
+  · cases l <;> simp [firstIndex]
+  · cases l with
+    | nil => simp [lastIndex]
+    | cons r t =>
+      simp only [lastIndex, reduceCtorEq, iff_false]
+      cases h : (r :: t).getLast? with
+      | none => simp at h
+      | some v => simp
+
 end Moc.C03
